@@ -42,7 +42,7 @@ def run_stress(chk, binary, jobs, g, procs, rounds, seedv, name):
     vlib.write_ndjson(jp, jobs)
     env = dict(os.environ, GOMAXPROCS=str(procs), GORACE="halt_on_error=0 exitcode=0")
     try:
-        p = subprocess.run([binary, "-in", jp, "-out", ep, "-g", str(g), "-rounds", str(rounds), "-seed", str(seedv)], capture_output=True, text=True, timeout=300, env=env)
+        p = subprocess.run([binary, "-in", jp, "-out", ep, "-g", str(g), "-rounds", str(rounds), "-seed", str(seedv)], capture_output=True, text=True, timeout=1200, env=env)
     except subprocess.TimeoutExpired:
         return [dict(op="deadlock", hist=0)], ""
     evs = vlib.read_ndjson(ep) if os.path.exists(ep) else []
@@ -101,7 +101,7 @@ def run(tier):
         ep = os.path.join(chk.work, "sched.events")
         json.dump(sched, open(sp, "w"))
         try:
-            p = subprocess.run([binary, "-mode", "schedule", "-in", sp, "-out", ep], capture_output=True, text=True, timeout=200, env=dict(os.environ, GORACE="halt_on_error=0 exitcode=0"))
+            p = subprocess.run([binary, "-mode", "schedule", "-in", sp, "-out", ep], capture_output=True, text=True, timeout=1200, env=dict(os.environ, GORACE="halt_on_error=0 exitcode=0"))
             evs = vlib.read_ndjson(ep)
             if "WARNING: DATA RACE" in p.stderr:
                 evs.append(dict(op="race", hist=0))
